@@ -36,7 +36,7 @@ def touched():
 
 SIBLINGS = {"C01": ["C06", "C12", "C11", "C17", "C03"], "C02": ["C11", "C15"], "C03": ["C12", "C01"], "C04": ["C05", "C10", "C08", "C01", "C19"], "C05": ["C19", "C04", "C10", "C08", "C09"],
             "C06": ["C01", "C11", "C10"], "C07": ["C19", "C14"], "C08": ["C05", "C04", "C09"], "C09": ["C08", "C05"], "C10": ["C04", "C05", "C06", "C08", "C19", "C09"],
-            "C11": ["C02", "C06", "C13", "C01"], "C12": ["C01", "C03", "C18"], "C13": ["C11", "C14", "C18"], "C14": ["C13", "C18", "C07"], "C15": ["C02", "C18", "C16", "C12"],
+            "C11": ["C02", "C06", "C13", "C01"], "C12": ["C01", "C03", "C18", "C02", "C11"], "C13": ["C11", "C14", "C18"], "C14": ["C13", "C18", "C07"], "C15": ["C02", "C18", "C16", "C12"],
             "C16": ["C18", "C15", "C12"], "C17": ["C06", "C01", "C18"], "C18": ["C14", "C12", "C16"], "C19": ["C05", "C07", "C08"]}
 
 
